@@ -23,8 +23,7 @@ ASSUMPTIONS = ['explicit datetime endpoints', 'month-based units from a day <= 2
 EXHAUSTIVE = {'quick': False, 'thorough': False}
 LEVEL_TEXT = ('machine-checked Coq theorems for all endpoints and bumps (no bound): iteration characterisation, strict monotonicity, bounds, non-emptiness, '
               'wrong-direction ValueError, weekday-only business lists, loop termination; model compared with the real drange on thousands of ranges')
-LEVEL_NOTE = ('trusted: Coq kernel/vm_compute; modelled not verified: dateutil.rrule, Python slicing; the equality int == timedelta == "nd" is checked by the '
-              'oracle on every generated case (not yet a Coq theorem)')
+LEVEL_NOTE = ('trusted: Coq kernel/vm_compute; modelled not verified: dateutil.rrule, Python slicing. Known finding: rrule arms drop microseconds')
 TECHNIQUE = 'Coq proof (induction over fuel, inductive iteration spec) over a hand-written model + differential correspondence in vm_compute'
 
 def bump_py(b):
